@@ -115,4 +115,14 @@ CHECKS = {
             {"pkg": "pkg/client", "test": "TestVerif_C18", "shards": {"quick": 8, "thorough": 16}},
         ],
     },
+    "C01": {
+        "level": "exploration",
+        "technique": "runtime monitoring: deterministic-schedule simulation of the real node code against a scripted peer with an online in-sync monitor and a convergence oracle under virtual (aged) time; cross-checked by real Node.Run over loopback TCP",
+        "level_text": "TODO",
+        "level_note": "TODO",
+        "unclaimed": "not claimed yet: monitor under construction",
+        "runs": [
+            {"pkg": "internal/spynode", "test": "TestVerif_C01"},
+        ],
+    },
 }
